@@ -224,6 +224,10 @@ class Engine(ExprMixin, CallMixin, BuiltinMixin, VerifyMixin):
             return V(PY, core.py_sort().PObj(CTX.func("empty_obj", z3.IntSort(), z3.IntSort())(z3.IntVal({EMPTY_LIST: 0, EMPTY_DICT: 1, EMPTY_SET: 2}[v.ty]))))
         if ty is PY and v.ty is STATIC:
             return core.to_py(self.adapt(v, List(v.items[0].ty))) if v.items else self.adapt(V(EMPTY_LIST, None), PY)
+        if v.ty is EMPTY_DICT and isinstance(ty, U) and self.dictlike(ty) is not None:
+            dl = self.dictlike(ty)
+            n = core.ufun("sf_" + dl["empty"], [], ty)
+            return n
         hook = getattr(self.reg, "coercions", {}).get((v.ty.key, ty.key))
         if hook is not None:
             return core.ufun("sf_" + hook, [v], ty)
@@ -456,6 +460,15 @@ class Engine(ExprMixin, CallMixin, BuiltinMixin, VerifyMixin):
                                     self.do_raise(no, "KeyError")
                                 if yes is not None:
                                     nxt.extend(self.assign(tgt.value, core.mremove(c, k), yes, None))
+                            elif self.dictlike(c.ty) is not None and k.ty is STR:
+                                dl = self.dictlike(c.ty)
+                                sub = self.dl_sub(c, dl)
+                                yes, no = self.fork(st2, z3.And(self.dl_ismap(c, dl), core.mhas(sub, k)), tgt.lineno, "deldoc")
+                                if no is not None:
+                                    self.do_raise(no, "Exception")
+                                if yes is not None:
+                                    yes = yes.copy()
+                                    nxt.extend(self.assign(tgt.value, self.dl_mk(core.mremove(sub, k), dl, yes), yes, None, inplace=True))
                             else:
                                 raise OutsideSubset("del on %r" % (c.ty,))
                 elif isinstance(tgt, ast.Name):
